@@ -83,6 +83,10 @@ pub fn data_elements_to_string(elements: &Vec<DataElement>) -> String {
     elements
         .iter()
         .map(|element| match element {
+            // A string with a double quote in it can only have come from unquoted text
+            // (there is no way to escape a quote inside a quoted item), and quoting it
+            // would make it read back as several items.
+            DataElement::String(string) if string.contains('"') => string.to_string(),
             DataElement::String(string) => format!("\"{}\"", string),
             DataElement::Number(number) => number.to_string(),
         })
